@@ -3,6 +3,7 @@ package checks
 import (
 	"fmt"
 	"math/big"
+	"sync"
 
 	"github.com/trajectoryjp/spatial_id_go/v4/common/object"
 	"github.com/trajectoryjp/spatial_id_go/v4/transform"
@@ -18,6 +19,7 @@ type CaseC11 struct {
 	KeyZoom      int64     // zoom of the raw keys below
 	Keys         []int64   // raw quadkeys < 4^KeyZoom (decode/encode bijectivity)
 	AltKey       bool      // also exercise the altitude-key variant (inputs have v <= 25)
+	BigPre       bool      // sweep only: the process first performs one conversion with > 2^21 pairs that contains this case's pairs
 	E, Off       int64
 }
 
@@ -162,7 +164,17 @@ func classifyC11(c *CaseC11) (bool, []string) {
 
 type pair struct{ k, v int64 }
 
+var c11BigOnce sync.Once
+
 func checkC11(c *CaseC11, fl *Fails) {
+	if c.BigPre {
+		// history with a size threshold: one very large conversion earlier in the same process (pools / caches that
+		// are only reset below some size would keep its pairs)
+		c11BigOnce.Do(func() {
+			_, _ = transform.ConvertExtendedSpatialIDsToQuadkeysAndVerticalIDs([]string{"5/3/3/5/-1"}, 13, 10, 0, 0)
+			_, _ = transform.ConvertExtendedSpatialIDsToQuadkeysAndAltitudekeys([]string{"5/3/3/20/-1"}, 13, 25, 25, 1<<25)
+		})
+	}
 	ids := boxesExt(c.Boxes)
 	groups, err := transform.ConvertExtendedSpatialIDsToQuadkeysAndVerticalIDs(ids, c.OutH, c.OutV, 0, 0)
 	if err != nil {
@@ -329,6 +341,14 @@ func checkC11(c *CaseC11, fl *Fails) {
 }
 
 func sweepC11(tier string, emit func(*CaseC11)) {
+	if tier != "quick" {
+		// descendants of 5/3/3/5/-1 at (13,10): their pairs were all produced by the big conversion before
+		for _, d := range [][3]int64{{0, 0, 0}, {255, 255, 31}, {17, 200, 5}, {128, 1, 30}} {
+			b := ref.Box{H: 13, X: 3<<8 + d[0], Y: 3<<8 + d[1], V: 10, F: -32 + d[2]}
+			emit(&CaseC11{Boxes: []ref.Box{b}, OutH: 13, OutV: 10, BackH: 13, BackV: 10, KeyZoom: 13, E: 25, BigPre: true})
+			emit(&CaseC11{Boxes: []ref.Box{{H: 13, X: b.X, Y: b.Y, V: 20, F: -32 + d[2]}}, OutH: 13, OutV: 25, BackH: 13, BackV: 25, KeyZoom: 13, E: 25, Off: 1 << 25, AltKey: true, BigPre: true})
+		}
+	}
 	maxH := int64(5)
 	if tier == "quick" {
 		maxH = 4
